@@ -305,7 +305,7 @@ Proof.
     destruct ok; cbn [fst]; [|exact Hr]. eapply ps_trans; [exact Hr|apply ps_one, PS_soft, soft_evicted]. }
   destruct r4 as [[c4 restored] ev1]. cbn [fst] in H4.
   assert (H4' : psteps (l_cell st) c4) by (eapply ps_trans; eassumption).
-  destruct restored; [exact H4'|].
+  destruct restored; [exact H4'|]. unfold place_tail.
   destruct (get_app an (c_apps c4)) as [a4|]; [|apply ps_refl].
   destruct (a_once a4 && a_evicted a4); [cbn [l_cell set]; eapply ps_trans; [exact H4'|apply ps_one, PS_release]|].
   destruct (negb (tr_feasible (l_tracker st) a4)); [cbn [l_cell set]; eapply ps_trans; [exact H4'|apply ps_one, PS_release]|].
